@@ -410,6 +410,20 @@ func liveStackMakers() []recvMaker {
 			s.SetValidityPolicy(func(...any) error { return nil })
 			return s.Push("m", "n")
 		}},
+		recvMaker{"OR-failing-validity", "Stack", func() any {
+			s := stackage.Or().Push("v1", "v2")
+			s.SetValidityPolicy(func(...any) error { return sentinelErr })
+			return s
+		}},
+		recvMaker{"NOT-closures", "Stack", func() any {
+			s := stackage.Not().Push("c1")
+			s.SetPresentationPolicy(func(...any) string { return "<<closure>>" })
+			s.SetEqualityPolicy(func(any, any) error { return nil })
+			s.SetUnmarshaler(func(...any) ([]any, error) { return []any{"U"}, nil })
+			s.SetMarshaler(func(...any) error { return nil })
+			s.SetLessFunc(func(i, j int) bool { return i < j })
+			return s
+		}},
 	)
 	return out
 }
@@ -422,6 +436,19 @@ func liveCondMakers() []recvMaker {
 			return stackage.Cond("k", userOp("~="), 5).SetEncap(`"`).SetParen(true).SetID("cid").SetCategory("cc").SetAuxiliary(stackage.Auxiliary{"z": 2})
 		}},
 		{"cond-initonly", "Condition", func() any { var c stackage.Condition; c.Init(); return c }},
+		{"cond-failing-validity", "Condition", func() any {
+			c := stackage.Cond("k", stackage.Eq, "v")
+			c.SetValidityPolicy(func(...any) error { return sentinelErr })
+			return c
+		}},
+		{"cond-closures", "Condition", func() any {
+			c := stackage.Cond("k", stackage.Le, stackage.List().Push("e"))
+			c.SetPresentationPolicy(func(...any) string { return "<<closure>>" })
+			c.SetEqualityPolicy(func(any, any) error { return nil })
+			c.SetUnmarshaler(func(...any) ([]any, error) { return []any{"U"}, nil })
+			c.SetEvaluator(func(...any) (any, error) { return 1, nil })
+			return c
+		}},
 	}
 }
 
@@ -639,6 +666,78 @@ func (sw *sweeper) probeMutable(rm recvMaker, h reflect.Value, ms []reflect.Meth
 	sw.events++
 }
 
+// asArgument hands a fresh read-only instance (native, alias and pointer
+// forms) to every any-taking method of writable helper instances and records
+// whether the read-only instance changed.
+func (sw *sweeper) asArgument(rm recvMaker) {
+	helpers := []recvMaker{
+		{"helper-AND", "Stack", func() any { return stackage.And().Push("h1", "h2") }},
+		{"helper-LIST-cap", "Stack", func() any { return stackage.List(3).Push("h1") }},
+		{"helper-cond", "Condition", func() any { return stackage.Cond("hk", stackage.Eq, "hv") }},
+	}
+	forms := func(x any) []named {
+		switch tv := x.(type) {
+		case stackage.Stack:
+			a := AStack(tv)
+			return []named{{"native", tv}, {"alias", a}, {"ptr", &a}}
+		case stackage.Condition:
+			a := ACond(tv)
+			return []named{{"native", tv}, {"alias", a}, {"ptr", &a}}
+		}
+		return nil
+	}
+	for _, hm := range helpers {
+		for _, m := range methodsOf(hm.mk()) {
+			mt := methodType(m)
+			slot := -1
+			for i := 0; i < mt.NumIn(); i++ {
+				pt := mt.In(i)
+				if pt == tAny || (mt.IsVariadic() && i == mt.NumIn()-1 && pt.Elem() == tAny) {
+					slot = i
+					break
+				}
+			}
+			if slot < 0 {
+				continue
+			}
+			for fi := 0; fi < 3; fi++ {
+				ro := setRO(rm.mk())
+				f := forms(ro)[fi]
+				var vals []reflect.Value
+				for i := 0; i < mt.NumIn(); i++ {
+					pt := mt.In(i)
+					switch {
+					case i == slot:
+						vals = append(vals, reflect.ValueOf(f.v))
+					case mt.IsVariadic() && i == mt.NumIn()-1:
+						// nothing for an unrelated variadic tail
+					default:
+						vals = append(vals, toValue(pt, variants(pt, plainAnys())[0].v))
+					}
+				}
+				pre := Snap(ro)
+				ev := SweepEvent{Ev: "call", Mode: "ronly-arg", Recv: rm.name, Typ: rm.typ,
+					Method: "arg:" + hm.name + "." + m.Name, Args: f.name,
+					PreLive: b2s(pre.Live), PreRO: b2s(pre.Ronly), PreErr: pre.Err, Pre: pre.Rest,
+					NonZero: []string{}, ErrRes: "false", Again: "n/a", Health: "n/a"}
+				func() {
+					defer func() {
+						if r := recover(); r != nil {
+							ev.Panic = fmt.Sprint(r)
+						}
+					}()
+					holderOf(hm.mk()).Method(m.Index).Call(vals)
+				}()
+				post := Snap(ro)
+				ev.PostLive, ev.PostRO, ev.PostErr, ev.Post = b2s(post.Live), b2s(post.Ronly), post.Err, post.Rest
+				_ = sw.enc.Encode(SweepEvent{Ev: "reset", Mode: "ronly-arg", Recv: rm.name, Typ: rm.typ, NonZero: []string{}})
+				_ = sw.enc.Encode(ev)
+				sw.events++
+			}
+		}
+	}
+}
+
 func methodsOf(x any) []reflect.Method {
 	t := reflect.PtrTo(reflect.TypeOf(x)) // pointer method set includes value methods
 	var out []reflect.Method
@@ -708,6 +807,8 @@ func cmdSweep(args []string) {
 				}
 				sw.probeMutable(rm, h, ms)
 			}
+			// the read-only instance as an ARGUMENT of another instance's methods
+			sw.asArgument(rm)
 		}
 	case "dead":
 		for _, rm := range deadMakers() {
@@ -803,6 +904,9 @@ func RunSweepReplay(r *SweepReplay) (bool, string) {
 		return false, "no events"
 	}
 	first := r.Events[0]
+	if first.Mode == "ronly-arg" {
+		return replayAsArgument(first)
+	}
 	var rm *recvMaker
 	all := append(append(liveStackMakers(), liveCondMakers()...), deadMakers()...)
 	for i := range all {
@@ -882,3 +986,31 @@ func RunSweepReplay(r *SweepReplay) (bool, string) {
 }
 
 var lastDiff string
+
+
+func replayAsArgument(want SweepEvent) (bool, string) {
+	f, _ := os.CreateTemp("", "sweepreplay")
+	defer os.Remove(f.Name())
+	defer f.Close()
+	sw := &sweeper{enc: json.NewEncoder(f), methods: map[string]bool{}}
+	all := append(liveStackMakers(), liveCondMakers()...)
+	for i := range all {
+		if all[i].name == want.Recv {
+			sw.asArgument(all[i])
+		}
+	}
+	f.Seek(0, 0)
+	sc := bufio.NewScanner(f)
+	sc.Buffer(make([]byte, 1<<20), 1<<26)
+	for sc.Scan() {
+		var got SweepEvent
+		_ = json.Unmarshal(sc.Bytes(), &got)
+		if got.Ev == "call" && got.Method == want.Method && got.Args == want.Args {
+			if facts(got) == facts(want) {
+				return true, facts(got)
+			}
+			return false, "recorded: " + facts(want) + "\nobserved: " + facts(got)
+		}
+	}
+	return false, "event not found on re-execution"
+}
